@@ -11,11 +11,11 @@ Trace == ndJsonDeserialize("c16trace.ndjson")
 VARIABLE l
 
 PcClass(pc) == IF pc \in {"t_stat", "t_remove", "t_create", "killed"} THEN pc ELSE "ret"
-Root(name, up) == [born |-> "unset", marker |-> "unset", role |-> "app", crash |-> FALSE, upload |-> up, upvar |-> FALSE,
+Root(name, up) == [born |-> "unset", marker |-> "unset", env |-> <<>>, role |-> "app", crash |-> FALSE, upload |-> up, upvar |-> FALSE,
                    pc |-> IF up THEN "t_stat" ELSE "done", seen |-> "none", acq |-> FALSE]
 
 TInit == /\ mode = "on" /\ initToken = "absent" /\ localOK = TRUE
-         /\ cfg = [s \in Starters |-> [marker |-> "unset", crash |-> FALSE, upload |-> TRUE]]
+         /\ cfg = [s \in Starters |-> [marker |-> "unset", crash |-> FALSE, upload |-> TRUE, leak |-> FALSE]]
          /\ token = "absent" /\ local = "present" /\ wrote = {} /\ ev = {}
          /\ procs = [id \in {<<s>> : s \in Starters} |-> Root(id[1], FALSE)]
          /\ nf = 0 /\ l = 1
